@@ -483,6 +483,7 @@ PPL::PIP_Problem::ascii_load(std::istream& s) {
   }
 
   Constraint c(Constraint::zero_dim_positivity());
+  input_cs.clear();
   for (dimension_type i = 0; i < input_cs_size; ++i) {
     if (!c.ascii_load(s)) {
       return false;
